@@ -760,8 +760,8 @@ def _r5_persistence(run):
                             break
                         runs = False if runs is None else runs
                     if runs is None:
-                        problems.append(("read-masked-clear-condition", "the buffer returned for a missing tile is cleared only under %s, which cannot be evaluated for mode %s"
-                                         % ([show(c[0])[:60] for c in extra[0]], m)))
+                        run.undecided("C15.R5", g, clears[0].node, "read_image: the buffer returned for a missing tile is cleared only under %s, which cannot be evaluated "
+                                      "for mode %s" % ([show(c[0])[:60] for c in extra[0]], m), kind="read-masked-clear-condition")
                         break
                     if runs:
                         continue
